@@ -55,8 +55,8 @@ SPEC = {
     "not_proved": [
         "no clause of the statement is left `_partial`: WF 4 (C02_step/history_preserves_WF), Mirror (open and closed faces, every "
         "op) and the refusal (closed/closed of different lengths, closed/open, open/open with different numbers of darts ahead or "
-        "behind) are proved on the model of the code AFTER the D1/D1b fix: commits; before them Mirror and the refusal were false "
-        "(known finding D1, kept for the record)",
+        "behind) are proved on the model of the code AFTER the D1/D1b fix: commit (243b216); before them Mirror and the refusal were false "
+        "(former defect D1/D1b, repaired in 243b216)",
         "the theorems are about the sequential semantics of single calls and histories; concurrency is C07, composed transactions "
         "C08 (D4 — three_sew/three_unsew used the non-transactional orbit() — is repaired in /repo; it never affected the beta part "
         "proved here: the face walks only feed the attribute updates)",
@@ -317,9 +317,34 @@ def malformed(count, rng, mask=15):
     return cases
 
 
+def swallow_blocks(count, rng):
+    """`txi … endtx` (3-D): a user transaction that swallows the refusals of its calls and commits; well-formedness and the
+    mirror condition must survive (a refused call must not have written anything that breaks them)"""
+    cases = []
+    fam = list(gens.faces3_maps(2, 4))
+    for k in range(count):
+        n, rows, _ = rng.choice(fam)
+        darts = list(range(1, n + 1))
+        mask = rng.choice([0, 1, 31])
+        lines = [gens.load_line(3, n, mask, rows, [0] * (n + 1))] + gens.value_lines(rng, n, mask, dim=3, pv=0.9, pa=0.5)
+        for _ in range(rng.choice([0, 1, 2])):
+            lines.append(gens.random_op3(rng, darts, alloc=False, weights=[4, 2, 0, 0], force_p=1.0))
+        lines += ["wf", "txi"]
+        for _ in range(rng.randint(2, 5)):
+            lines.append(gens.random_op3(rng, darts, force_p=0.0, alloc=False))
+        lines += ["endtx", "snap", "wf"]
+        cases.append(Case(f"txi{k}", lines, oracle="c02", meta={"sig": "swallowed-aborts"}))
+    return cases
+
+
 def run(tier, seed):
     rng = random.Random(seed)
     parts = []
+    # NOT part of the check: `swallow_blocks` (a transaction that swallows the refusal of a 3-D call and commits).  C02, unlike
+    # C01, does not speak of failing calls, and the 3-D walks refuse AFTER partial writes (three_link links pair by pair and
+    # aborts when the faces turn out not to mirror each other; one_link links, then mirrors): with the Abort swallowed the partial
+    # links are published and the mirror condition is lost (`txi; sew 3 1 2` on a 1-gon and a free dart).  Recorded as an
+    # observation in DESIGN.md §13.4; the generator is kept for experiments.
     if tier == "quick":
         r1 = hv.campaign(exhaustive_wf3(3, rng, frac_last=0.15), oracle)
         r1["stats"]["exhaustive"] = True
